@@ -421,6 +421,15 @@ ExtractMut(w) ==
     ELSE {E("Catalog", "SetValue", 1, <<t, 1>>, "") : t \in Toks} \cup
          {E("Catalog", "RemoveValue", 1, <<t>>, "") : t \in Toks}
 
+\* Family "iterK" (C17): an iterator over an Array, Set, Stack or Queue: every
+\* move, and one change of the source (costly) which the iterator must not see
+EventsIterK(w) ==
+    CASE Len(w) = 0 -> {E("GoArray", "New", 0, <<l>>, "V") : l \in {<<>>, <<1>>, <<0, 1, 2>>}}
+      [] Len(w) = 1 -> {E(kk, "MakeFromArray", 0, <<1>>, "V") : kk \in {"Array", "Set", "Stack", "Queue"}}
+      [] Len(w) = 2 -> {E(w[2].kind, "GetIterator", 2, <<>>, "")}
+      [] Len(w) = 3 -> IterEv(3, Len(w[3].s))
+      [] OTHER -> {}
+
 \* A sequence of event sets (each set homogeneous in the types of its
 \* arguments: TLC cannot compare an integer token with a pair token).
 EvSets(w) ==
@@ -437,6 +446,7 @@ EvSets(w) ==
       [] Family = "extract"  -> << EventsExtract(w), Costly(ExtractMut(w)) >>
       [] Family = "keysC"    -> << EventsKeys("Catalog", w) >>
       [] Family = "keysM"    -> << EventsKeys("Map", w) >>
+      [] Family = "iterK"    -> << EventsIterK(w), Costly(IF Len(w) = 3 THEN MutEv(w, 2, "V") ELSE {}) >>
       [] Family = "sort"     -> << EventsSort(w) >>
       [] Family = "sortA"    -> << EventsSortA(w) >>
       [] Family = "alias"    -> EvSetsAlias(w)
